@@ -29,6 +29,10 @@ pub struct P {
     pub joins: bool,
     #[serde(default)]
     pub join_to: Vec<u16>,
+    /// application traffic: (time, node, item length) of add_broadcast calls - with small packets the
+    /// piggybacked sections fill datagrams to the last byte
+    #[serde(default)]
+    pub items: Vec<(u64, u16, usize)>,
 }
 
 pub fn gen_params(seed: u64, tier: Tier) -> P {
@@ -73,7 +77,20 @@ pub fn gen_params(seed: u64, tier: Tier) -> P {
         }
         start_ns[0] = 0;
     }
-    P { wc, start_ns, joins, join_to, window_ns: (2 * n as u64) * period * MS, settle_ns: (2 * n as u64 + 2) * period * MS + suspect * MS, sample: match tier { Tier::Quick => 24, Tier::Thorough => 0 } }
+    // one configuration in two: small packets and application broadcasts, so that datagrams are filled to the brim
+    let mut s2 = Stream::new(seed, "c04-params-2");
+    let mut items = Vec::new();
+    if s2.chance(1, 2) {
+        let floor = if wc.policy.var_ids || !wc.codec.is_wire() { 120 } else { 40 };
+        wc.cfg.max_packet_size = NonZeroUsize::new(floor + s2.range(0, 80) as usize).unwrap();
+        let t0 = *start_ns.iter().max().unwrap();
+        let m = s2.range(n as u64, 6 * n as u64);
+        for _ in 0..m {
+            let t = t0 + s2.range(0, (2 * n as u64 + 4) * period) * MS;
+            items.push((t, s2.range(1, n as u64) as u16, s2.range(2, 40) as usize));
+        }
+    }
+    P { wc, start_ns, joins, join_to, items, window_ns: (2 * n as u64) * period * MS, settle_ns: (2 * n as u64 + 2) * period * MS + suspect * MS, sample: match tier { Tier::Quick => 24, Tier::Thorough => 0 } }
 }
 
 struct Outcome {
@@ -104,6 +121,9 @@ fn execute(p: &P, seed: u64, drop: Option<u64>, formed: Option<(u64, u64)>) -> O
     for (i, t) in p.start_ns.iter().enumerate() {
         w.schedule_op(*t, i);
     }
+    for (j, (t, _, _)) in p.items.iter().enumerate() {
+        w.schedule_op(*t, n + j);
+    }
     let mut t_form = *p.start_ns.iter().max().unwrap();
     let mut first_dgram = 0u64;
     let mut forming = p.joins;
@@ -126,6 +146,12 @@ fn execute(p: &P, seed: u64, drop: Option<u64>, formed: Option<(u64, u64)>) -> O
             _ => break,
         }
         match w.step() {
+            Err(op) if op >= n => {
+                let (_, a, len) = p.items[op - n];
+                let mut item = vec![(op - n) as u8, 1];
+                item.resize(len.max(2), 0xa5);
+                w.call(a, Input::AddBroadcast(item));
+            }
             Err(op) => {
                 // bootstrap node op+1 with the full membership (restoring knowledge, no broadcast)
                 let a = (op + 1) as u16;
